@@ -5,7 +5,8 @@
 (* u256_idiv_u128 (two-step) - and of i256_div_mod_floor with its sign fix-up,  *)
 (* checked against the relation of the property (FpDec!WideOk): a*b = q*m + r,  *)
 (* 0 <= r < m, None iff q is outside the (2W)-bit signed range.  All operands.  *)
-(* Variant "f1" is the sign fix-up before the repair (negative control).        *)
+(* Variant "f1" is the sign fix-up before the repair, "mul_carry" a product that *)
+(* loses the carry of the middle partial products (negative controls).          *)
 EXTENDS NatInt, TLC
 CONSTANTS W, Variant
 S == INSTANCE FpDec WITH ZAdd <- IAdd, ZSub <- ISub, ZMul <- IMul, ZCmp <- ICmp, ZFloorDivMod <- IFloorDivMod, ZLit <- ILit,
@@ -51,9 +52,18 @@ Full(xh, xl, y) ==              \* u256_idiv_u128: <<qh, ql, remainder>>
   ELSE IF xh < y THEN LET s == Special(xh, xl, y) IN <<0, s[1], s[2]>>
   ELSE LET s == Special(xh % y, xl, y) IN <<xh \div y, s[1], s[2]>>
 Abs(z) == IF z < 0 THEN 0 - z ELSE z
+\* u128_mul_u128: four half-word partial products with their carries; <<high word, low word, every intermediate fits a word>>
+Mul(x, y) ==
+  LET xh == Hi(x)  xl == Lo(x)  yh == Hi(y)  yl == Lo(y)
+      t1 == xl * yl
+      t2 == xl * yh + Hi(t1)
+      t3 == xh * yl + Lo(t2)
+      rl == Lo(t1) + Lo(t3) * B
+      rh == Hi(t2) + xh * yh + (IF Variant = "mul_carry" THEN 0 ELSE Hi(t3))
+  IN <<rh, rl, t1 < M /\ t2 < M /\ t3 < M /\ rl < M /\ rh < M>>
 \* i256_div_mod_floor(x1, x2, y), y > 0: <<isSome, q, r>>
 DivModFloor(x1, x2, y) ==
-  LET p == Abs(x1) * Abs(x2)  f == Full(p \div M, p % M, y)  q == f[2]  r == f[3]  neg == (x1 < 0) # (x2 < 0) IN
+  LET p == Mul(Abs(x1), Abs(x2))  f == Full(p[1], p[2], y)  q == f[2]  r == f[3]  neg == (x1 < 0) # (x2 < 0) IN
   IF f[1] # 0 \/ q > IMAX THEN <<FALSE, 0, 0>>
   ELSE IF ~neg THEN <<TRUE, q, r>>
   ELSE IF Variant = "f1" THEN <<TRUE, 0 - q - 1, y - r>>
@@ -62,6 +72,7 @@ VARIABLES x1, x2, y
 Init == x1 \in (0 - IMAX)..IMAX /\ x2 = 0 /\ y = 0
 Next == y = 0 /\ x2' \in (0 - IMAX)..IMAX /\ y' \in 1..IMAX /\ UNCHANGED x1
 Correct == y = 0 \/ LET res == DivModFloor(x1, x2, y) IN S!WideOk(x1 * x2, y, res[1], res[2], res[3])
+MulCorrect == y = 0 \/ LET p == Mul(Abs(x1), Abs(x2)) IN p[3] /\ p[1] * M + p[2] = Abs(x1) * Abs(x2)
 \* the unsigned core on every (xh, xl, y) the signed entry can form is covered by Correct; additionally the
 \* no-add-back argument: the special division is exact for every xh < y (not only products)
 =======================================================================
